@@ -24,7 +24,7 @@ RULE = (
     "transition = one real API call; non-trivial = a sequence in which some argument object is passed to at least two calls"
 )
 SPACE = {
-    "quick": "4 scenarios (simple grid with a second Grid object, face-connected grid, grid with metrics, transform grid) x all sequences a;b;c with a, b over all 10-20 operations of the scenario (incl. calls that raise) and c over every second one; every prefix checked",
+    "quick": "5 scenarios (simple grid with a second Grid object, face-connected grid, grid with metrics, transform grid, grids parsed from COMODO / SGRID metadata incl. attributes stored as text) x all sequences a;b;c with a, b over all 10-20 operations of the scenario (incl. calls that raise) and c over every second one; every prefix checked",
     "thorough": "a;b;c;d with a, b, c over all operations and d over every third one",
 }
 BOUNDS = {"quick": {"depth": 3}, "thorough": {"depth": 4}}  # see alphabets()
@@ -51,8 +51,11 @@ def snap(o, depth=0):
     if isinstance(o, xr.DataArray):
         return snap_da(o)
     if isinstance(o, xr.Dataset):
-        return ("DS", tuple(sorted((str(k), snap_da(v)) for k, v in o.variables.items())), repr(sorted(o.attrs.items())),
+        return ("DS", tuple(sorted((str(k), snap(v)) for k, v in o.variables.items())), repr(sorted(o.attrs.items())),
                 tuple(sorted(map(str, o.coords))))
+    if isinstance(o, xr.Variable):
+        return ("VAR", tuple(o.dims), tuple(o.shape), str(o.dtype), np.ascontiguousarray(o.values).tobytes(),
+                repr(sorted((str(k), type(v).__name__, repr(v)) for k, v in o.attrs.items())), repr(sorted(o.encoding.items())))
     if isinstance(o, np.ndarray):
         return ("ND", o.shape, str(o.dtype), np.ascontiguousarray(o).tobytes())
     if isinstance(o, dict):
@@ -231,6 +234,8 @@ def scn_simple():
     ops["diff_keep"] = lambda n: n["g"].diff(n["c"], "X", to="left", keep_coords=True)
     ops["vec_diff"] = lambda n: n["g"].diff(n["vec"], "X", other_component=n["oc"])
     ops["vec2d"] = lambda n: n["g"].interp_2d_vector(n["vec2"], boundary="extend")
+    # a vector call that is refused half way: the caller's mapping must survive that too
+    ops["vec2d_refused"] = lambda n: n["g"].interp_2d_vector(n["vec2"], boundary="bogus")
     ops["bad_axis"] = lambda n: n["g"].diff(n["c"], "Z")
     ops["bad_to"] = lambda n: n["g"].diff(n["c"], "X", to="center", boundary=n["bmap"])
     ops["bad_boundary"] = lambda n: n["g"].interp(n["c"], n["axl"], boundary="bogus", fill_value=n["fmap"])
@@ -340,6 +345,7 @@ def scn_faces():
     ops["pad_s"] = lambda n: pad(n["s"], n["g"], n["bw"], boundary="extend")
     ops["cumsum_s"] = lambda n: n["g"].cumsum(n["s"], "X", to="left", boundary="fill")
     ops["construct"] = lambda n: _construct_f(n)
+    ops["vec2d_refused"] = lambda n: n["g"].diff_2d_vector(n["vec2"], boundary="bogus", fill_value=n["fmap"])
     ops["vec_missing_oc"] = lambda n: n["g"].diff(n["vecx"], "X")
     ops["bad_axis"] = lambda n: n["g"].interp(n["s"], "Z")
     ops["min_s"] = lambda n: n["g"].min(n["s"], "Y", boundary=n["bmap"], fill_value=n["fmap"])
@@ -387,7 +393,56 @@ def scn_transform():
     return ns, ops
 
 
-SCN = collections.OrderedDict(simple=scn_simple, metrics=scn_metrics, faces=scn_faces, transform=scn_transform)
+def scn_parsed():
+    """Grids built from dataset metadata (COMODO attributes, some stored as text or integers; an SGRID topology variable)"""
+    from xgcm import Grid
+    from xgcm import comodo, metadata_parsers, sgrid
+
+    n = 3
+    ds = xr.Dataset(
+        {"t": (("yc", "xc"), (np.arange(n * n) ** 2.0).reshape(n, n))},
+        coords={
+            "xc": ("xc", np.arange(n) + 0.5, {"axis": "X", "units": "m"}),
+            "xg": ("xg", np.arange(n) * 1.0, {"axis": "X", "c_grid_axis_shift": "-0.5"}),  # the shift stored as text
+            "yc": ("yc", np.arange(n) + 0.5, {"axis": "Y"}),
+            "yg": ("yg", np.arange(n) + 1.0, {"axis": "Y", "c_grid_axis_shift": np.float32(0.5)}),
+            "zc": ("zc", np.arange(2) + 0.5, {"axis": "Z"}),
+            "zo": ("zo", np.arange(3) * 1.0, {"axis": "Z", "c_grid_axis_shift": -0.5}),
+        },
+        attrs={"title": "comodo"},
+    )
+    sattrs = {"cf_role": "grid_topology", "topology_dimension": 2, "node_dimensions": "xn yn",
+              "face_dimensions": "xf: xn (padding: both) yf: yn (padding: low)"}
+    sg = xr.Dataset({"grid": ((), np.int32(0), sattrs), "h": (("yf", "xf"), np.arange(9.0).reshape(3, 3))},
+                    coords={"xf": ("xf", np.arange(3) * 1.0), "xn": ("xn", np.arange(2) * 1.0), "yf": ("yf", np.arange(3) * 1.0), "yn": ("yn", np.arange(3) * 1.0)},
+                    attrs={"Conventions": "SGRID-0.3"})
+    ns = {"ds": ds, "sg": sg}
+    with warnings.catch_warnings():
+        warnings.simplefilter("ignore")
+        # the Grids the operations use are built from copies: the datasets in `ns` are first seen by xgcm inside an operation
+        ns["g"] = Grid(ds.copy(deep=True), periodic=False, boundary="extend")
+        ns["gs"] = Grid(sg.copy(deep=True), periodic=False, boundary="fill", fill_value=0.0)
+    ns["t"] = ds["t"]
+    ns["h"] = sg["h"]
+    ns["axl"] = ["X", "Y"]
+    ops = collections.OrderedDict()
+    ops["construct"] = lambda n: Grid(n["ds"], periodic=False)
+    ops["construct_periodic"] = lambda n: Grid(n["ds"], periodic=["X"], boundary={"Y": "extend", "Z": "fill"})
+    ops["construct_sgrid"] = lambda n: Grid(n["sg"], periodic=False)
+    ops["parse"] = lambda n: repr(metadata_parsers.parse_metadata(n["ds"])[1])
+    ops["parse_sgrid"] = lambda n: repr(metadata_parsers.parse_metadata(n["sg"])[1])
+    ops["comodo_x"] = lambda n: repr(comodo.get_axis_positions_and_coords(n["ds"], "X"))
+    ops["comodo_axes"] = lambda n: repr(sorted(comodo.get_all_axes(n["ds"])))
+    ops["sgrid_x"] = lambda n: repr(sgrid.get_axis_positions_and_coords(n["sg"], "X"))
+    ops["interp_xy"] = lambda n: n["g"].interp(n["t"], n["axl"])
+    ops["diff_y"] = lambda n: n["g"].diff(n["t"], "Y", keep_coords=True)
+    ops["interp_ds_var"] = lambda n: n["g"].interp(n["ds"]["t"], "X")
+    ops["sg_interp"] = lambda n: n["gs"].interp(n["h"], "X")
+    ops["bad_axis"] = lambda n: comodo.get_axis_positions_and_coords(n["ds"], "Q")
+    return ns, ops
+
+
+SCN = collections.OrderedDict(simple=scn_simple, metrics=scn_metrics, faces=scn_faces, transform=scn_transform, parsed=scn_parsed)
 
 
 def run_op(ns, fn):
